@@ -11,6 +11,44 @@ fn srng(seed: u64) -> Mon<AnyWords> {
     Mon::new(AnyWords::S(Scripted::plain(seed))).budget(u64::MAX)
 }
 
+/// Decision boundaries of one sample() call as a function of the word at position `pos` (all other words
+/// fixed): the smallest 53-bit pattern k whose call consumes a different number of words than k = 0.  For a
+/// rejection sampler this is the acceptance threshold of the uniform drawn at `pos`, located exactly (53
+/// bisection steps), so a constant that differs by 1e-8 moves it by ~10^8 patterns.  A pure sampler must give the
+/// same boundaries whatever was sampled before, from whatever object, on this thread.
+fn boundaries(s: &dyn Subject, seed: u64) -> Vec<Option<u64>> {
+    let mut out = vec![];
+    for pos in 0..4u64 {
+        let count = |k: u64| -> Option<u64> {
+            let mut r = Mon::new(AnyWords::S(Scripted::new(seed, pos, k << 11))).budget(10_000);
+            match guarded(|| s.call_hash(&mut r)) {
+                Caught::Ok(_) => Some(r.count),
+                _ => None,
+            }
+        };
+        let top = (1u64 << 53) - 1;
+        let c0 = count(0);
+        if c0.is_none() {
+            out.push(None);
+            continue;
+        }
+        // look for a pattern with a different word count among the extremes and a few interior points
+        let probe = [top, top / 2, top / 4, 3 * (top / 4), top / 16, top - top / 16];
+        let hi = probe.iter().copied().find(|&k| count(k) != c0);
+        let Some(mut hi) = hi else {
+            out.push(None);
+            continue;
+        };
+        let mut lo = 0u64;
+        while hi - lo > 1 {
+            let mid = lo + (hi - lo) / 2;
+            if count(mid) == c0 { lo = mid } else { hi = mid }
+        }
+        out.push(Some(hi));
+    }
+    out
+}
+
 struct Rep {
     case: Value,
     nviol: u64,
@@ -33,6 +71,7 @@ pub fn run(job: &Value) {
     let start = job["start"].as_u64().unwrap_or(0) as usize;
     BUDGET_MS.store(20_000, std::sync::atomic::Ordering::Relaxed);
     let mut subjects: Vec<(usize, Box<dyn Subject>)> = vec![];
+    let mut first_boundaries: Vec<Vec<Option<u64>>> = vec![];
     for (idx, case) in cases.iter().enumerate() {
         if idx < start {
             continue;
@@ -153,6 +192,8 @@ pub fn run(job: &Value) {
                 }
             }
         }
+        let b0 = boundaries(s.as_ref(), mix(&[vseed, idx as u64, 0xB0]));
+        first_boundaries.push(b0);
         emit(&json!({"ev": "case", "case_idx": idx, "case": case.to_json(), "calls": calls, "pairs": pairs, "viol": rep.nviol, "not_sync": not_sync, "sig": signature(&dbg0)}));
         flush();
         subjects.push((idx, s));
@@ -282,6 +323,51 @@ pub fn run(job: &Value) {
             }
         }
     }
+    // (h') decision boundaries of X immediately after one draw from each other member Y of its group (neighbouring
+    // cases: same family, equal parameters in the other float type, ...): state leaking from Y's call into X's
+    let mut pviol = 0u64;
+    let mut pchecked = 0u64;
+    for (gi, grp) in subjects.chunks(group).enumerate() {
+        for (xi, (xidx, x)) in grp.iter().enumerate() {
+            let xj = gi * group + xi;
+            for (yi, (_, y)) in grp.iter().enumerate() {
+                if yi == xi {
+                    continue;
+                }
+                tick();
+                let mut r = srng(mix(&[vseed, xj as u64, yi as u64, 0xB1]));
+                let _ = guarded(|| y.call_hash(&mut r));
+                let b = boundaries(x.as_ref(), mix(&[vseed, *xidx as u64, 0xB0]));
+                pchecked += 1;
+                if b != first_boundaries[xj] {
+                    pviol += 1;
+                    if pviol <= 3 {
+                        emit(&json!({"ev": "viol", "kind": "decision_boundary_moved", "case": cases[*xidx].to_json(),
+                            "detail": {"first_visit": format!("{:?}", first_boundaries[xj]), "right_after_one_draw_from": cases[grp[yi].0].id, "now": format!("{b:?}"),
+                                       "meaning": "smallest 53-bit pattern at stream positions 0..3 that changes the number of words one sample() call consumes"}}));
+                    }
+                }
+            }
+        }
+    }
+    emit(&json!({"ev": "boundaries_after_neighbour", "checked": pchecked, "viol": pviol}));
+    // (h) decision boundaries again, now that every object of this process has been sampled in every way above
+    let mut bviol = 0u64;
+    let mut bfound = 0u64;
+    for (j, (idx, s)) in subjects.iter().enumerate() {
+        tick();
+        let b1 = boundaries(s.as_ref(), mix(&[vseed, *idx as u64, 0xB0]));
+        bfound += b1.iter().filter(|b| b.is_some()).count() as u64;
+        if b1 != first_boundaries[j] {
+            bviol += 1;
+            if bviol <= 3 {
+                emit(&json!({"ev": "viol", "kind": "decision_boundary_moved", "case": cases[*idx].to_json(),
+                    "detail": {"first_visit": format!("{:?}", first_boundaries[j]), "after_all_other_sampling": format!("{b1:?}"),
+                               "meaning": "smallest 53-bit pattern at stream positions 0..3 that changes the number of words one sample() call consumes"}}));
+            }
+        }
+    }
+    emit(&json!({"ev": "boundaries", "located": bfound, "viol": bviol}));
     emit(&json!({"ev": "histories", "histories": hist_n, "history_len": hist_len, "replayed_calls": replayed, "viol": nviol}));
     emit(&json!({"ev": "done"}));
     flush();
